@@ -1,6 +1,6 @@
 /* h_file.c - File streams (C20).  Link with -Wl,--wrap=fopen,--wrap=fclose (stream accounting).
  *   reset
- *   new <o> [<path> <mode>] | open <o> <path> <mode>      mode: 1 rb 2 wb 3 r+b 4 w+b ; path: small number
+ *   new <o> [<path> <mode>] | open <o> <path> <mode>      mode: 1 rb 2 wb 3 r+b 4 w+b 5 ab 6 a+b ; path: small number
  *   write <o> <seed> <n> | read <o> <n> | seek <o> <off> <origin> | tell <o> | eof <o> | flush <o>
  *   close <o> | del <o> | withbegin <o> | withend <o> | print <o> <value> | scan <o>
  */
@@ -14,7 +14,7 @@ FILE* __wrap_fopen(const char* p, const char* m) { FILE* f = __real_fopen(p, m);
 int __wrap_fclose(FILE* f) { n_fclose++; return __real_fclose(f); }
 
 static char dir[600];
-static const char* MODES[] = { "", "rb", "wb", "r+b", "w+b" };
+static const char* MODES[] = { "", "rb", "wb", "r+b", "w+b", "ab", "a+b" };
 static char pbuf[700];
 static const char* path_of(int p) { snprintf(pbuf, sizeof pbuf, "%s/f%d", dir, p); return pbuf; }
 static unsigned char pat(long seed, long k) { return (unsigned char)((seed * 31 + k * 7 + (k / 256)) % 256); }
